@@ -122,6 +122,16 @@ pub fn run(ctx: &Ctx, rep: &mut Report) {
         }
         // an output list recycled from earlier sentences, and fresh ones
         let mut recycled = MorphemeList::empty(&world.dict);
+        // (in every second world it first receives an analysis made with a narrow field request: what a later split writes
+        // into it is loaded with the request of the list that is split, not with that old one)
+        if wi % 2 == 0 {
+            let mut narrow = sudachi::analysis::stateful_tokenizer::StatefulTokenizer::new(&world.dict, Mode::C);
+            narrow.set_subset(crate::fields::subset_of(if wi % 4 == 0 { 0x004 } else { 0x000 }));
+            narrow.reset().push_str("あい東京都");
+            if narrow.do_tokenize().is_ok() {
+                let _ = recycled.collect_results(&mut narrow);
+            }
+        }
         // ... and one that is not cleared between calls (the split API appends)
         let mut accum = MorphemeList::empty(&world.dict);
         let pr = world.plugins.join_numeric.is_some();
